@@ -240,7 +240,7 @@ static void run_case(const qdesc *q, qscn *s, long idx) {
     Q.count = s->count; Q.ch = s->ch; Q.fold = s->fold; Q.out = s->onull ? NULL : out;
     Q.ret = -999;
     probes_reset();
-    g_shm->in_call = 1; FENCED(q->call()); g_shm->in_call = 0;
+    g_shm->in_call = 1; g_cur_fn = q->name; FENCED(q->call()); g_shm->in_call = 0;
     K[K_CALLS]++;
     char key[320], what[520], obs[240];
     const char *bosn = s->bos ? "bos=exact" : "bos=unknown";
@@ -464,7 +464,7 @@ static void gen(int qi) {
     }
 }
 
-static void body(void *arg, long lo, long hi) { (void)hi; g_skip_below = lo; gen(*(int *)arg); for (int i = 0; i < K_NUM; i++) __sync_fetch_and_add(&CTR(i), K[i]); distinct_emit(); }
+static void body(void *arg, long lo, long hi) { (void)hi; g_skip_below = lo; gen(*(int *)arg); for (int i = 0; i < K_NUM; i++) __sync_fetch_and_add(&CTR(i), K[i]); __sync_fetch_and_add(&CTR(60), g_fp_checks); distinct_emit(); }
 static void on_death(void *arg, long idx, int status, int hung) {
     int qi = *(int *)arg; char key[300], what[400], wit[400];
     CTR(K_DEATH)++;
@@ -490,13 +490,14 @@ int main(int argc, char **argv) {
         else { fprintf(stderr, "unknown arg %s\n", argv[i]); return 2; }
     }
     setlocale(LC_ALL, "C");
-    arena_init(); fence_init(); shm_init(); probes_install();
+    arena_init(); fence_init(); shm_init(); probes_install(); fp_init();
     for (int qi = 0; qi < NQ; qi++) {
         if (g_only_fn && strcmp(g_only_fn, QD[qi].name)) continue;
         memset(K, 0, sizeof K);
         run_supervised(body, on_death, &qi, 0, 1L << 40, 20);
     }
     for (int i = 0; i < K_NUM; i++) emit_counter(KN[i], CTR(i));
+    emit_counter("footprint_checks", CTR(60));
     fprintf(g_out, "{\"t\":\"end\"}\n"); fflush(g_out);
     return 0;
 }
